@@ -1864,6 +1864,15 @@ def remove_redundant_reshape_pairs_ir(graph: ir.Graph) -> None:
             if not _shapes_compatible(src, dst):
                 i += 1
                 continue
+            # The chain moves from T1's target layout onto ``src``: size-1 side
+            # operands must not out-rank it, or they would widen the result.
+            src_rank = _value_rank(src)
+            if not all(
+                _side_inputs_fit_rank(chain_node, _first_input(chain_node), src_rank)
+                for chain_node in allowed_nodes
+            ):
+                i += 1
+                continue
             allowed_fwd = list(reversed(allowed_nodes))
             chain_nodes: Set[ir.Node] = set(allowed_fwd)
 
@@ -2299,6 +2308,41 @@ def _side_inputs_are_scalar(node: ir.Node, data_value: Optional[ir.Value]) -> bo
         if node.op_type == "CastLike" and index == 1:
             continue
         if not _is_scalar_const_value(iv):
+            return False
+    return True
+
+
+def _value_rank(val: Optional[ir.Value]) -> Optional[int]:
+    """Rank of ``val`` as far as it is known: constant payload first, declared shape otherwise."""
+    if not isinstance(val, ir.Value):
+        return None
+    arr = _to_numpy_from_any(val)
+    if arr is not None:
+        return int(arr.ndim)
+    dims = _shape_dims_seq(val.shape)
+    if dims is None:
+        return None
+    return len(dims)
+
+
+def _side_inputs_fit_rank(
+    node: ir.Node, data_value: Optional[ir.Value], rank: Optional[int]
+) -> bool:
+    """Check that no side operand of ``node`` out-ranks a data operand of ``rank``.
+
+    A size-1 side operand still takes part in broadcasting by its rank: moving
+    the node onto a lower-rank data operand would let the side operand decide
+    the rank of the result.
+    """
+    if rank is None:
+        return False
+    for index, iv in enumerate(_node_inputs(node)):
+        if iv is None or iv is data_value:
+            continue
+        if node.op_type == "CastLike" and index == 1:
+            continue
+        side_rank = _value_rank(iv)
+        if side_rank is None or side_rank > rank:
             return False
     return True
 
